@@ -21,6 +21,7 @@
   SHORTREAD no plain io::Read::read judged by its count outside forwarding Read implementations (shared with C11)
 It does NOT decide that the produced value is *the* value.
 """
+import re
 from ..lib import *
 from ..dematrix import *
 from ..core import short_loc, op_place, const_int
@@ -868,8 +869,10 @@ def blocks_rule(ctx):
                 o.atoms |= oo.atoms; o.flags |= oo.flags; o.calls += oo.calls
                 if any('NonZero' in str(x) and 'new' in str(x) for x in oo.consts()):
                     nz = True
-    ctx.ob('BLOCKS', 'read_block_len/zero-ends', nz and 'try_into' in o.flags, short_loc(b.span),
-           'result is try_into(count).map(NonZero::new): zero count => None: %s' % (nz and 'try_into' in o.flags))
+    # (or the count itself, 0 standing for "no more blocks": then has_more's zero arm is what ends the sequence)
+    plain_count = not nz and 'try_into' in o.flags and re.match(r'core::result::Result<usize,', b.local_ty(0) or '') is not None and not o.has_arith()
+    ctx.ob('BLOCKS', 'read_block_len/zero-ends', (nz or plain_count) and 'try_into' in o.flags, short_loc(b.span),
+           'result is try_into(count).map(NonZero::new): zero count => None: %s; or the checked count itself with 0 as the end marker: %s' % (nz and 'try_into' in o.flags, plain_count))
     # has_more
     hm = fn_by_label(f, 'de::deserializer::types::blocks::BlockReader::has_more')
     if hm is None:
@@ -900,7 +903,15 @@ def blocks_rule(ctx):
     ok = bool(fal)
 
     def in_none_arm(bb):
-        return any('None' in names and any('read_block_len' in cname(c) for c in oo.calls) for names, adt, oo, d_, oth in option_guards(hm, bb))
+        if any('None' in names and any('read_block_len' in cname(c) for c in oo.calls) for names, adt, oo, d_, oth in option_guards(hm, bb)):
+            return True
+        # the zero arm of a match on the count read_block_len returned (0 as the end marker)
+        for d_, si_, taken_ in dominating_switches(hm, bb):
+            if si_.get('kind') not in ('enum', 'bool') and taken_[0] == 'val' and tuple(taken_[1]) == (0,):
+                so_ = origin(hm, si_['op'])
+                if any('read_block_len' in cname(c) for c in so_.calls) and not so_.has_arith():
+                    return True
+        return False
     # ... or where a flag says that this very thing already happened: a bool field of the block reader that is set
     # (to true) only in that None arm, anywhere in de::
     def end_flag_fields():
